@@ -186,7 +186,7 @@ UnitAliases = {
     ('mil',): Unit.Mil,
     ('mrad',): Unit.MRad,
     ('thousandth', 'ths'): Unit.Thousandth,
-    ('inch/100yd', 'in/100yd', 'inch/100yd', 'in/100yard, inper100yd'): Unit.InchesPer100Yd,
+    ('inch/100yd', 'in/100yd', 'inch/100yd', 'in/100yard', 'inper100yd'): Unit.InchesPer100Yd,
     ('centimeter/100m', 'cm/100m', 'cm/100meter', 'centimeter/100meter', 'cmper100m'): Unit.CmPer100m,
     ('hour', 'h'): Unit.OClock,
 
@@ -836,10 +836,11 @@ def _parse_unit(input_: str) -> Optional[Unit]:
     # declared slots qualify (hasattr() also matched 'set', 'defaults', '__doc__', ... and returned a method or str)
     if input_ in getattr(PreferredUnits, '__dataclass_fields__'):
         return getattr(PreferredUnits, input_)
-    try:
-        return Unit[input_]
-    except KeyError:
-        return _find_unit_by_alias(input_, UnitAliases)
+    # enumeration names in any letter case (input_ is lower-cased, so Unit[input_] could never match a member)
+    for unit in Unit:
+        if unit.name.lower() == input_:
+            return unit
+    return _find_unit_by_alias(input_, UnitAliases)
 
 
 def _parse_value(input_: Union[str, float, int],
